@@ -100,6 +100,19 @@ class Program:
                     todo.extend(adj[u])
         return False
 
+    def multiplicity(self, n, _memo=None):
+        """Acyclic programs: the number of routes from the start tasks to task n = the most task
+        executions it can get in one run (a join, like a start task, gets one)."""
+        memo = {} if _memo is None else _memo
+        if n in memo:
+            return memo[n]
+        edges = [i for i, t in enumerate(self.tasks) for f in ('succ', 'err', 'compl') for tg, _ in (t.get(f) or []) if tg == n]
+        if not edges or self.tasks[n].get('join') is not None:
+            memo[n] = 1
+        else:
+            memo[n] = sum(self.multiplicity(m, memo) for m in edges)
+        return memo[n]
+
     def has_cycle(self):
         n = len(self.tasks)
         adj = [[tg for f in ('succ', 'err', 'compl') for tg, _ in (t.get(f) or []) if isinstance(tg, int)] for t in self.tasks]
@@ -416,6 +429,7 @@ class Observer:
         self.errs_seen = 0
         self.sw_seen = 0
         self.flagged_nojoin = set()
+        self.flagged_twice = set()
 
     def fail(self, prop, sig, what):
         self.failures.append({'property': prop, 'signature': sig, 'what': what, 'at_event': len(self.tr.labels) - 1})
@@ -465,6 +479,18 @@ class Observer:
             # C03/C11: finished workflow not altered by late results / timers / duplicates
             if pwf in ('SUCCESS', 'ERROR', 'CANCELLED') and wf != pwf and not is_rerun and not label.startswith('stop'):
                 self.fail('C11', 'finished-wf-changed:%s' % label.split('(')[0], 'workflow %s -> %s on %s' % (pwf, wf, label))
+        # C01/C10: in an acyclic program a task gets at most one task execution per route leading to it
+        # (one in all for a join or a start task); reruns and skips reuse the row
+        if not self.prog.has_cycle() and not any(l.startswith(('rerun:', 'skip:')) for l in self.tr.labels):
+            # (a rerun task routes again when it completes again: its successors legitimately run once more)
+            names = [t.split(',')[0] for t in tlist]
+            for n in set(names):
+                if names.count(n) > self.prog.multiplicity(int(n)) and n not in self.flagged_twice:
+                    self.flagged_twice.add(n)
+                    paused = any(l in ('pause', 'resume') for l in self.tr.labels)
+                    self.fail('C10' if paused else 'C01', 'second-task-execution:%s' % label.split('(')[0].split(':')[0],
+                              'task t%s of an acyclic workflow got %d task executions on %s, its routes allow %d' % (
+                                  n, names.count(n), label, self.prog.multiplicity(int(n))))
         # C04: a task whose spec is a join always carries the join's unique key, and gets its
         # first action only when enough inbound tasks have completed and routed to it
         for i, t in enumerate(tlist):
